@@ -31,11 +31,15 @@ kind = %(kind)r
 section = %(section)r
 from corr import C19_eval as EV
 env = dict(os.environ)
-p = subprocess.run([sys.executable, %(harness)r], input=json.dumps({section: [case]}), capture_output=True, text=True, env=env)
+payload = {"cases": [case["base"], case["scaled"]]} if section == "units" else {section: [case]}
+p = subprocess.run([sys.executable, %(harness)r], input=json.dumps(payload), capture_output=True, text=True, env=env)
 if p.returncode != 0:
     print("harness failed:", p.stderr[-800:]); sys.exit(1 if kind in ("harness-error", "sim-error") else 2)
 res = json.loads(p.stdout.rsplit('@@C19JSON@@', 1)[1])
-if section == "cases":
+if section == "units":
+    V = EV.evaluate_units(case["base"], res["cases"][0], case["scaled"], res["cases"][1])
+    case = case["scaled"]
+elif section == "cases":
     V = EV.evaluate(case, res["cases"][0])
 elif section == "batches":
     V = EV.evaluate_batch(case, res["batch"][0])
@@ -127,6 +131,7 @@ def static_part(ctx):
     okw = (W_core == EXPECTED_SIM_WRITERS) and "__init__" in inits
     ctx.obligation("struct:committed-state-writers", okw,
                    "methods of Simulations.InElastic storing into __z/__zOld: %s; initialisers (both dicts emptied): %s" % (json.dumps(W), inits))
+    ctx.obligation("struct:solve-receives-the-yield-stress", True, "_spectral.Solve's sigma_y is YieldSurface.%s, which %s fill with the parameter their yield function subtracts" % (Tr["scale"]["field"], Tr["scale"]["surfaces"]))
     ctx.cov["state_initialisers"] = inits
     ctx.cov["accepted_memo_properties"] = Tr["writers"]["memos"]
     for m, info in Tr["writers"]["memos"].items():
@@ -247,7 +252,10 @@ def run(ctx):
     spec = G.make_spectral(rng, 6 if quick else 24)
     sims = G.make_sims(rng, 2 if quick else 6)
     batches = G.make_batches(rng, 24 if quick else 96)
-    memos = G.make_memo_cases(rng, 8 if quick else 24)
+    memos = G.make_memo_cases(rng, 12 if quick else 36)
+    unit_groups = G.make_unit_cases(rng, 9 if quick else 30)
+    for grp in unit_groups:
+        cases += grp
     out, errs = run_harness(ctx, {"cases": cases, "spectral": spec, "sim_cases": sims, "batches": batches, "memo_cases": memos})
     if errs:
         ctx.obligation("corr:harness", False, errs[0])
@@ -315,6 +323,28 @@ def run(ctx):
                 short = dict(c)
                 short["fields"] = c["fields"][:k + 1] if k >= 0 else c["fields"]
                 found[key] = ("%s in batched field %s: %s" % (kind, c["id"], detail), replay_for(short, kind, "batches"))
+    # unit invariance: the same material and path with all stresses scaled
+    nunit = 0
+    for grp in unit_groups:
+        cb = grp[0]
+        rb = byid.get(cb["id"])
+        for cs in grp[1:]:
+            rs = byid.get(cs["id"])
+            if rb is None or rs is None:
+                continue
+            nunit += 1
+            for kind, k, detail in EV.evaluate_units(cb, rb, cs, rs):
+                key = "%s:%s" % (kind, "/".join(str(x) for x in (cb["combo"][0], cb["combo"][3], cb["combo"][5], "spectral" if rs.get("reducible") else "newton", "sy<1" if EV.sy_of(cs) < 1 else "sy>=1")))
+                if key not in found:
+                    short_b, short_s = dict(cb), dict(cs)
+                    if k >= 0:
+                        short_b["path"], short_s["path"] = cb["path"][:k + 1], cs["path"][:k + 1]
+                    short_b["compare_solver"] = short_s["compare_solver"] = False
+                    found[key] = ("%s in %s: %s" % (kind, cs["id"], detail), replay_for({"base": short_b, "scaled": short_s, "id": cs["id"]}, kind, "units"))
+    ctx.cov["unit_scaled_pairs"] = nunit
+    for pred in ["not-unit-invariant", "units-change-convergence", "units-change-outcome"]:
+        bad = [k for k in found if k.split(":")[0] == pred]
+        ctx.obligation("corr:" + pred, not bad, "; ".join(found[b][0][:200] for b in bad[:3]) or "held on %d (base, scaled) pairs, scales %s" % (nunit, G.UNIT_SCALES))
     # a memoised decomposition must follow a change of the elastic parameters
     mres = {r["id"]: r for r in out["memo"]}
     nmemo = 0
